@@ -112,8 +112,10 @@ def exact_linspace(lo, hi, n):
 def crossings_at(cl, x2):
     """exact ordinates where the vertical line at x2 meets non-vertical edges (closed segments);
     `vert`: ordinates contributed by vertical edges lying on the line (outside general position);
-    `tangent`: the line touches a vertex without crossing there; `steep`: an edge steeper than 1e5"""
-    ys, vert, tangent, steep = [], [], False, False
+    `tangent`: the line touches a vertex without crossing there; `steep`: an edge steeper than 1e5;
+    `inner`: the ordinates of hits strictly inside an edge (0 < t < 1) -- a hit AT a vertex (t = 0 or 1)
+    is decided by the last bit of the LAPACK solution and may legitimately be missed in binary64"""
+    ys, vert, tangent, steep, inner = [], [], False, False, []
     for (ax, ay), (bx, by) in segs(cl):
         if ax == bx:
             if ax == x2:
@@ -122,6 +124,8 @@ def crossings_at(cl, x2):
         t = (x2 - ax) / (bx - ax)
         if 0 <= t <= 1:
             ys.append(ay + t * (by - ay))
+            if 0 < t < 1:
+                inner.append(ay + t * (by - ay))
             if abs(by - ay) > 10 ** 5 * abs(bx - ax):
                 steep = True
     n = len(cl) - 1  # closed: cl[n] == cl[0]
@@ -139,7 +143,7 @@ def crossings_at(cl, x2):
                 guard += 1
             if (cl[j][0] - x2) * (cl[k][0] - x2) >= 0:
                 tangent = True
-    return ys, vert, tangent, steep
+    return ys, vert, tangent, steep, inner
 
 
 def run_dc(vu, case):
@@ -188,7 +192,7 @@ def oracle_dc(vu, case, res=None):
         cls = "more-than-two-hits" if res["err"] == "AssertionError" else "other"
         worst = 0
         for x2 in absc:
-            ys, vert, tangent, steep = crossings_at(cl, x2)
+            ys, vert, tangent, steep, inner = crossings_at(cl, x2)
             worst = max(worst, len(ys))
         return dict(base, clause="raises", exception=res["err"], input_class=cls), \
             "calculate_design_conditions raises %s (up to %d hits of one vertical line with the polygon edges)" % (res["err"], worst), info
@@ -204,11 +208,15 @@ def oracle_dc(vu, case, res=None):
             rx = Fr(rows[k][0])
             matched = (rx == x2) if exact_list else (abs(rx - x2) <= tol)
         xe = Fr(rows[k][0]) if matched else x2
-        ys, vert, tangent, steep = crossings_at(cl, xe)
+        ys, vert, tangent, steep, inner = crossings_at(cl, xe)
         near_vertex = any(0 < abs(p[0] - xe) < delicate_margin for p in cl)
         top = max(ys) if ys else None
+        top_inner = max(inner) if inner else None
+        at_vertex = top is not None and (top_inner is None or top_inner < top)   # the top hit is a vertex hit
         delicate = tangent or steep or near_vertex or (vert and (top is None or max(vert) > top))
         info["hits"].append(len(ys))
+        if len(ys) != len(inner):
+            info["vertex_abscissae"] = info.get("vertex_abscissae", 0) + 1
         if delicate:
             info["unjudgeable_abscissae"] += 1
         if matched:
@@ -225,6 +233,9 @@ def oracle_dc(vu, case, res=None):
                     if not delicate:
                         return dict(base, clause="not-on-contour"), \
                             "design condition (%r, %r) is not on the polygon (crossings at %s)" % (float(xe), float(ry), [float(y) for y in sorted(ys)]), info
+                elif at_vertex and (top_inner is None or ry >= top_inner - tol):
+                    # the top crossing is exactly at a vertex and binary64 missed it; everything else is right
+                    info["vertex_top_missed"] = info.get("vertex_top_missed", 0) + 1
                 elif not delicate:
                     cls = "max-ordinate-negative" if ymax < 0 else "other"
                     return dict(base, clause="top-ordinate", input_class=cls), \
@@ -232,6 +243,9 @@ def oracle_dc(vu, case, res=None):
                             float(xe), float(ry), float(top), [float(y) for y in sorted(ys)]), info
         else:
             if top is not None and not delicate:
+                if top_inner is None:
+                    info["vertex_top_missed"] = info.get("vertex_top_missed", 0) + 1
+                    continue
                 cls = "max-ordinate-negative" if ymax < 0 else "other"
                 return dict(base, clause="omitted", input_class=cls), \
                     "abscissa %r crosses the contour (ordinates %s) but is omitted" % (float(xe), [float(y) for y in sorted(ys)]), info
@@ -537,7 +551,7 @@ def run(ctx):
     ctx.proof_gate(need_gen=False)
     rng = ctx.rng
     n_dc = ctx.n(320, 5000)
-    n_real = ctx.n(60, 600)
+    n_real = ctx.n(48, 500)
     n_ix = ctx.n(300, 5000)
     dc_cases = [gen_dc_case(ctx, rng, k, n_real) for k in range(n_dc)]
     ix_cases = [gen_ix_case(rng) for _ in range(n_ix)]
@@ -555,7 +569,7 @@ def run(ctx):
     dc_or = [oracle_dc(vu, c, r) for c, r in zip(dc_cases, dc_res)]
     ix_or = [oracle_ix(vi, c, r) for c, r in zip(ix_cases, ix_res)]
 
-    dist, hits_hist, unj, flat = {}, {}, 0, 0
+    dist, hits_hist, unj, flat, vtx, vmiss = {}, {}, 0, 0, 0, 0
     for c, r, (s, m, info) in zip(dc_cases, dc_res, dc_or):
         st = c["steps"]
         k = "dc/%s/steps=%s%s" % (c["kind"], "None" if st is None else ("int" if isinstance(st, int) else "list"), "/err:" + r["err"] if "err" in r else "")
@@ -564,6 +578,8 @@ def run(ctx):
             hk = str(h) if h < 5 else "5+"
             hits_hist[hk] = hits_hist.get(hk, 0) + 1
         unj += info["unjudgeable_abscissae"]
+        vtx += info.get("vertex_abscissae", 0)
+        vmiss += info.get("vertex_top_missed", 0)
         flat += 1 if info.get("flat_on_axis") else 0
         ctx.count(("dc", c["coords"], str(st), c["swap"]), any(h >= 2 for h in info["hits"]))
     ix_delicate = 0
@@ -579,7 +595,9 @@ def run(ctx):
     ctx.notes["crossings_per_polyline_pair"] = ix_hits
     ctx.notes["unjudgeable"] = {"abscissae_tangent_or_within_1e-7_of_a_vertex_or_steep_edge": unj,
                                 "polygons_flat_on_the_axis": flat,
+                                "abscissae_whose_top_hit_is_exactly_a_vertex_and_was_missed_in_binary64": vmiss,
                                 "polyline_pairs_not_in_general_position": ix_delicate}
+    ctx.notes["abscissae_through_a_vertex"] = vtx
     ctx.notes["sizes"] = {"polygon_vertices_max": max(len(c["coords"]) for c in dc_cases),
                           "polyline_vertices_max": max(max(len(c["c1"]), len(c["c2"])) for c in ix_cases)}
     for c, r in list(zip(dc_cases, dc_res))[:2]:
@@ -610,7 +628,8 @@ def run(ctx):
             if code == 0:
                 continue
             if kind == "dc":
-                judge = dc_or[i][2]["unjudgeable_abscissae"] == 0 and not dc_or[i][2].get("flat_on_axis")
+                judge = dc_or[i][2]["unjudgeable_abscissae"] == 0 and not dc_or[i][2].get("flat_on_axis") \
+                    and not dc_or[i][2].get("vertex_top_missed")
                 if not judge and code != 3:
                     nskip += 1
                     continue
